@@ -125,6 +125,25 @@ static Result scenario(int which, uint64_t seed)
         R.reals = ml->get_residuals();
         for (int i = 0; i < x.local_n; i++) R.reals.push_back(x.local.values[i]);
         delete ml; delete A;
+    } else if (which == 7) {
+        // a package that has been used for a long time (its tag counter has advanced by 2346 exchanges), then a second
+        // package is built and the old one is used again straight away, as in time stepping with re-setup: the data
+        // messages of the old package must not be taken for the index lists of the new one
+        int n = g.range(np + 1, 3 * np + 4);
+        std::vector<int> sizes = vh::compose(g, n, np, 1);
+        std::vector<int> fc(np + 1, 0); for (int p = 0; p < np; p++) fc[p + 1] = fc[p] + sizes[p];
+        std::vector<std::vector<int>> off(np), off2(np);
+        for (int r = 0; r < np; r++) for (int c = 0; c < n; c++) if (!(c >= fc[r] && c < fc[r + 1])) { if (g.coin(2, 3)) off[r].push_back(c); if (g.coin(1, 2)) off2[r].push_back(c); }
+        int ln = sizes[rank];
+        Partition* part = new Partition(n, n, ln, ln, fc[rank], fc[rank]);
+        ParComm* pc = new ParComm(part, off[rank]);
+        std::vector<int> x(ln); for (int i = 0; i < ln; i++) x[i] = 100 * (fc[rank] + i);
+        for (int k = 0; k < 2346; k++) pc->communicate(x);
+        ParComm* pc2 = new ParComm(part, off2[rank]);
+        std::vector<int>& r1 = pc->communicate(x); add(R, LL(std::vector<int>(r1.begin(), r1.begin() + off[rank].size())));
+        add(R, canon_pkg(pc2));
+        std::vector<int>& r2 = pc2->communicate(x); add(R, LL(std::vector<int>(r2.begin(), r2.begin() + off2[rank].size())));
+        pc2->delete_comm(); pc->delete_comm(); delete part;
     } else if (which == 6) {
         // distance-two independent set on a directed strength pattern: a chain inside every rank plus one coupling per row into
         // the next rank, so every rank sends halo data to one neighbour and receives from another (the sets differ); very
@@ -190,7 +209,8 @@ int main(int argc, char** argv)
         for (int s : sites) for (int p = 1; p < nperm; p++) scheds.push_back({3, s, p, 0, 400}); }
     // slow tag: the termination handshake of mis2 (and the package handshakes) with every message of one tag 20 ms late
     { int slow[] = { 19432, 23491 }; for (int t : slow) for (int who = 0; who <= std::min(np, 3); who++) scheds.push_back({5, t, who, 20000, 0}); }
-    int nscen = 7;
+    { for (int who = 0; who <= std::min(np, 3); who++) scheds.push_back({5, 12345, who, 20000, 0}); }      // late index lists (scenario 7)
+    int nscen = 8;
     for (int scen = 0; scen < nscen; scen++)
     for (int inst = 0; inst < (E.thorough ? 3 : 1); inst++)
     {
@@ -201,7 +221,9 @@ int main(int argc, char** argv)
             Sched sc = scheds[si];
             if (sc.mode == 3 && sc.site == 29485 && scen != 4) continue;         // site only exists in the repartition scenario
             if (sc.mode == 3 && sc.site != 12345 && sc.site != 29485 && scen == 4) continue;
-            if (sc.mode == 5 && scen != 6 && scen != 3) continue;                 // the handshake tags exist in the MIS-2 scenarios only
+            if (sc.mode == 5 && sc.site == 12345 && scen != 7) continue;
+            if (sc.mode == 5 && sc.site != 12345 && scen != 6 && scen != 3) continue;     // the handshake tags exist in the MIS-2 scenarios only
+            if (sc.mode == 3 && scen == 7 && sc.site != 12345) continue;
             if (sc.mode == 3 && scen == 6) continue;
             char buf[160]; snprintf(buf, 160, "scen%d/inst%d/sched%zu(mode%d,site%d,perm%d,delay%d,gather%d)", scen, inst, si, sc.mode, sc.site, sc.perm, sc.delay, sc.gather);
             E.about(buf);
